@@ -292,6 +292,16 @@ pub fn run_case(v: &Value) -> Value {
             if let Some(s) = guarded("stringify_tmpl", &mut panics, || group.stringify_tmpl(p)) {
                 o.insert("group".into(), json!(s));
             }
+            // second round: parse the printed text again and print it again (C14)
+            for (key, mangling) in [("plain", false), ("mangled", true)] {
+                let Some(Value::String(first)) = o.get(key).cloned() else { continue };
+                if let Some((out, w, _)) = guarded("restringify", &mut panics, || {
+                    stringify_one(p, &first, mangling)
+                }) {
+                    o.insert(format!("{}2", key), Value::String(out));
+                    o.insert(format!("{}_w2", key), Value::Array(w));
+                }
+            }
             strs.insert(p.clone(), Value::Object(o));
         }
         res.insert("str".into(), Value::Object(strs));
